@@ -133,14 +133,14 @@ Proof. repeat split; vm_compute; reflexivity. Qed.
 
 (** the three legacy behaviours contradict the statements proved for the repaired model *)
 Definition drawn_when_due (push : pushfn) : Prop :=
-  forall pos turn np fm ms h b, wf_b pos turn = true -> (turn = 0 \/ turn = 1) ->
+  forall pos turn np fm ms h b, wf_b pos turn = true -> (turn = 0 \/ turn = 1) -> np <= max_int ->
     new_board gz [] pos turn np fm = (h, b) ->
     forall h' b', play_with push ms h b = Some (h', b') -> ms <> [] ->
     g_now (spec_game pos turn np fm ms) <> [] -> outcome (b_result b') = Draw.
 
 Theorem repaired_drawn_when_due : drawn_when_due push_move.
 Proof.
-  intros pos turn np fm ms h b Hwf Ht Hnew h' b' Hplay Hne Hnow.
+  intros pos turn np fm ms h b Hwf Ht Hnp Hnew h' b' Hplay Hne Hnow.
   assert (Hpl : played_board gz pos turn np fm ms h' b').
   { assert (G : forall ms ms0 h b h' b', played_board gz pos turn np fm ms0 h b ->
               play_with push_move ms h b = Some (h', b') -> played_board gz pos turn np fm (ms0 ++ ms) h' b').
@@ -152,7 +152,7 @@ Proof.
         replace (ms0 ++ m :: r) with ((ms0 ++ [m]) ++ r) by (now rewrite <- app_assoc).
         eapply IH; [|exact H]. econstructor; eauto. }
     change ms with ([] ++ ms). eapply G; [|exact Hplay]. now constructor. }
-  exact (proj1 (drawn_iff gz gz_ok pos turn np fm Hwf Ht ms h' b' Hpl) Hne Hnow).
+  exact (proj1 (drawn_iff gz gz_ok pos turn np fm Hwf Ht Hnp ms h' b' Hpl) Hne Hnow).
 Qed.
 
 Theorem legacy_not_drawn_when_due : ~ drawn_when_due push_move_legacy.
@@ -162,11 +162,106 @@ Proof.
     [|vm_compute in E; discriminate].
   assert (R : result_of (Some (h, b)) = Some (Unknown, NoReason)) by (rewrite <- E; vm_compute; reflexivity).
   specialize (H start_pos White 0 1%Z (shuffle ++ shuffle) (fst start_board) (snd start_board)
-                ltac:(vm_compute; reflexivity) (or_introl eq_refl) eq_refl h b E ltac:(discriminate)
+                ltac:(vm_compute; reflexivity) (or_introl eq_refl) ltac:(vm_compute; discriminate) eq_refl h b E ltac:(discriminate)
                 ltac:(vm_compute; discriminate)).
   cbn in R. destruct (b_result b) as [o r]. cbn in R, H. inversion R. subst. discriminate.
 Qed.
 
+(** ** the half-move clock at the top of the Go [int] range
+    FEN [4k3/8/8/8/8/8/8/4K2R w - - 9223372036854775807 1]: White Ke1 Rh1, Black Ke8, no castling rights, set-up
+    clock [max_int] = math.MaxInt.  One quiet move (Rh2) later the specification's clock is 2^63 and the
+    fifty-move rule applies.
+
+    Before the repair [updateNoProgress] returned [old + 1] on a Go [int]: the clock wrapped to -2^63, and a
+    negative clock fails both the fifty-move test [noprogress >= 100] and the guard [i <= limit] (i >= 1) of the
+    repetition walk - exactly as the value 0 does.  [update_noprogress_wrap64] is that behaviour carried to the
+    [N]-typed clock of the model: the 64-bit two's-complement successor, negative values read as 0 by [Z.to_N].
+    (It is exact for the step on which the counter wraps, which is the one the example needs; the eight-ply run
+    shows in addition that the draw stays lost - three-fold repetition included, since the look-back window is
+    the clock.) *)
+Definition wrap_int64 (x : Z) : Z := ((x + 9223372036854775808) mod 18446744073709551616 - 9223372036854775808)%Z.
+Definition update_noprogress_wrap64 (old : N) (m : move) : N :=
+  if (mtype m =? Normal) || is_castle m then Z.to_N (wrap_int64 (Z.of_N old + 1)) else 0.
+Definition push_only_wrap64 : pushfn :=
+  push_move_with zmove update_noprogress_wrap64 identical_position_count has_insufficient_material.
+
+Definition wrap_pos : position :=
+  getp (new_position [mkPlacement E1 White King; mkPlacement H1 White Rook; mkPlacement E8 Black King] 0 0).
+(** Rh2 Kd8 Rh1 Ke8 (h1 = 0, h2 = 8, e8 = 59, d8 = 60) *)
+Definition Rh2 := mkMove Normal 0 8 Rook NoPiece NoPiece.
+Definition Kd8 := mkMove Normal 59 60 King NoPiece NoPiece.
+Definition Rh1 := mkMove Normal 8 0 Rook NoPiece NoPiece.
+Definition Ke8 := mkMove Normal 60 59 King NoPiece NoPiece.
+Definition rshuffle : list move := [Rh2; Kd8; Rh1; Ke8].
+Definition wrap_board := new_board gz [] wrap_pos White max_int 1.
+
+(** the wrap itself: MaxInt + 1 = MinInt on 64 bits; below MaxInt the wrapped counter is the plain successor *)
+Example wrap_int64_maxint :
+  wrap_int64 (Z.of_N max_int + 1) = (-9223372036854775808)%Z /\
+  update_noprogress_wrap64 max_int Rh2 = 0 /\ update_noprogress_wrap64 (max_int - 1) Rh2 = max_int /\
+  update_noprogress_wrap64 99 Rh2 = 100.
+Proof. repeat split; vm_compute; reflexivity. Qed.
+
+(** repaired model: the clock stays at [max_int] and the game is drawn after the first quiet move *)
+Example clock_saturates_example :
+  wf_b wrap_pos White = true /\
+  g_now (spec_game wrap_pos White max_int 1 [Rh2]) = [DrawNoProgress] /\
+  g_clock (spec_game wrap_pos White max_int 1 [Rh2]) = 9223372036854775808%Z /\
+  clock_of (play_with push_move [Rh2] (fst wrap_board) (snd wrap_board)) = Some max_int /\
+  result_of (play_with push_move [Rh2] (fst wrap_board) (snd wrap_board)) = Some (Draw, NoProgress) /\
+  clock_of (play_with push_move (rshuffle ++ rshuffle) (fst wrap_board) (snd wrap_board)) = Some max_int /\
+  result_of (play_with push_move (rshuffle ++ rshuffle) (fst wrap_board) (snd wrap_board)) = Some (Draw, NoProgress).
+Proof. repeat split; vm_compute; reflexivity. Qed.
+
+(** the same as a [played_board]: the hypotheses of the main theorems are satisfiable with set-up clock
+    [max_int] *)
+Example clock_saturates_game :
+  exists h b, played_board gz wrap_pos White max_int 1 [Rh2] h b /\
+    b_noprogress h b = max_int /\ b_result b = mkResult Draw NoProgress.
+Proof.
+  destruct (play_with push_move [Rh2] (fst wrap_board) (snd wrap_board)) as [[h b]|] eqn:E;
+    [|vm_compute in E; discriminate].
+  assert (R : result_of (Some (h, b)) = Some (Draw, NoProgress)) by (rewrite <- E; vm_compute; reflexivity).
+  assert (C : clock_of (Some (h, b)) = Some max_int) by (rewrite <- E; vm_compute; reflexivity).
+  exists h, b. split; [|split].
+  - cbn [play_with] in E.
+    destruct (existsb (move_eqb Rh2) (pseudo_legal_moves (b_position (fst wrap_board) (snd wrap_board)) (b_turn (snd wrap_board)))) eqn:Ex;
+      [|discriminate].
+    apply in_of_existsb in Ex.
+    destruct (push_move gz (fst wrap_board) (snd wrap_board) Rh2) as [[h1 b1] ok] eqn:Ep. destruct ok; [|discriminate].
+    inversion E; subst h1 b1.
+    change [Rh2] with ([] ++ [Rh2]). econstructor; [|exact Ex|exact Ep]. constructor. reflexivity.
+  - cbn in C. now inversion C.
+  - cbn in R. destruct (b_result b) as [o r]. cbn in R. now inversion R.
+Qed.
+
+(** legacy (wrapping counter): the clock is lost on the first quiet move, no draw is reported - neither then nor
+    after the start position has occurred for the third time - although the specification demands one after
+    every move of the game *)
+Example clock_wrap_legacy_refuted :
+  clock_of (play_with push_only_wrap64 [Rh2] (fst wrap_board) (snd wrap_board)) = Some 0 /\
+  result_of (play_with push_only_wrap64 [Rh2] (fst wrap_board) (snd wrap_board)) = Some (Unknown, NoReason) /\
+  g_now (spec_game wrap_pos White max_int 1 [Rh2]) = [DrawNoProgress] /\
+  result_of (play_with push_only_wrap64 (rshuffle ++ rshuffle) (fst wrap_board) (snd wrap_board)) = Some (Unknown, NoReason) /\
+  g_now (spec_game wrap_pos White max_int 1 (rshuffle ++ rshuffle)) = [DrawRep3; DrawNoProgress].
+Proof. repeat split; vm_compute; reflexivity. Qed.
+
+Theorem wrap64_not_drawn_when_due : ~ drawn_when_due push_only_wrap64.
+Proof.
+  intros H.
+  destruct (play_with push_only_wrap64 [Rh2] (fst wrap_board) (snd wrap_board)) as [[h b]|] eqn:E;
+    [|vm_compute in E; discriminate].
+  assert (R : result_of (Some (h, b)) = Some (Unknown, NoReason)) by (rewrite <- E; vm_compute; reflexivity).
+  specialize (H wrap_pos White max_int 1%Z [Rh2] (fst wrap_board) (snd wrap_board)
+                ltac:(vm_compute; reflexivity) (or_introl eq_refl) (N.le_refl _) eq_refl h b E ltac:(discriminate)
+                ltac:(vm_compute; discriminate)).
+  cbn in R. destruct (b_result b) as [o r]. cbn in R, H. inversion R. subst. discriminate.
+Qed.
+
+Print Assumptions clock_saturates_example.
+Print Assumptions clock_saturates_game.
+Print Assumptions clock_wrap_legacy_refuted.
+Print Assumptions wrap64_not_drawn_when_due.
 Print Assumptions threefold_game.
 Print Assumptions legacy_window_misses_threefold.
 Print Assumptions legacy_castling_resets_clock.
